@@ -189,6 +189,36 @@ func c03(c *Ctx) {
 		w := core.CutReach(core.CutSpec{Fn: EV, From: found.call.Block(), Cut: func(b *ssa.BasicBlock, i int) bool { return g.Edge(core.EdgeFacts(b, i)) }, Target: core.SuccessTarget(EV, g.ErrOK)})
 		r.Check(w == nil, "R2.success-gates", ev+" era "+we.name+" verdict", p.Pos(found.call.Pos()), "the entry point succeeds only with this era's verdict", "the entry point can succeed without this era's validator having succeeded: "+p.PathString(w))
 	}
+	// from its entry, the dispatcher succeeds only with the verdict of one of the era validators
+	// (no exit in front of the dispatch - a cached answer, a short-cut for some input - succeeds)
+	{
+		var gates []core.Gate
+		for _, e := range eras {
+			call := e.call
+			if f := core.StaticCalleeFn(call); f != nil && seenFn[f] {
+				gates = append(gates, core.ErrNilGate("era", func(c2 *ssa.Call) bool { return c2 == call }))
+			}
+		}
+		w := core.CutReach(core.CutSpec{Fn: EV,
+			Cut: func(b *ssa.BasicBlock, i int) bool {
+				fs := core.EdgeFacts(b, i)
+				for _, g := range gates {
+					if g.Edge(fs) {
+						return true
+					}
+				}
+				return false
+			},
+			Target: core.SuccessTarget(EV, func(v ssa.Value) bool {
+				for _, g := range gates {
+					if g.ErrOK != nil && g.ErrOK(v) {
+						return true
+					}
+				}
+				return false
+			})})
+		r.Check(w == nil && len(gates) > 0, "R2.success-gates", ev+" entry-verdict", p.Pos(EV.Pos()), "every success exit passed the verdict of an era validator", "the header-proof validator can report success without any era validator having verified this header and proof: "+p.PathString(w))
+	}
 	// pass-through wrappers of the dispatcher (a memoising or logging front) succeed only with
 	// the dispatcher's verdict for the same header and proof
 	passThroughWrappers(p, EV, 3, func(G *ssa.Function, call *ssa.Call) {
@@ -314,9 +344,11 @@ func c03(c *Ctx) {
 						skey := fmt.Sprintf("%s→%s ", core.FuncName(cf), name)
 						var ptype string
 						core.Derives(sa[n-2], func(v ssa.Value) bool {
-							if c2, ok := v.(*ssa.Call); ok && strings.HasSuffix(core.CalleeID(c2), ").GetExecutionBlockProof") {
-								ptype = core.TypeName(c2.Call.Args[0].Type())
-								checkProofGetter(c, core.StaticCalleeFn(c2), "ExecutionBlockProof")
+							if c2, ok := v.(*ssa.Call); ok && (strings.HasSuffix(core.CalleeID(c2), ").GetExecutionBlockProof") || (c2.Call.IsInvoke() && c2.Call.Method.Name() == "GetExecutionBlockProof")) {
+								if rv, gf := core.ConcreteRecv(c2); rv != nil && gf != nil {
+									ptype = core.TypeName(rv.Type())
+									checkProofGetter(c, gf, "ExecutionBlockProof")
+								}
 							}
 							return false
 						}, core.DeriveOpts{})
@@ -337,9 +369,11 @@ func c03(c *Ctx) {
 			d, isD := core.ConstInt(a[2])
 			var ptype string
 			core.Derives(a[1], func(v ssa.Value) bool {
-				if c2, ok := v.(*ssa.Call); ok && strings.HasSuffix(core.CalleeID(c2), ").GetBeaconBlockProof") {
-					ptype = core.TypeName(c2.Call.Args[0].Type())
-					checkProofGetter(c, core.StaticCalleeFn(c2), "BeaconBlockProof")
+				if c2, ok := v.(*ssa.Call); ok && (strings.HasSuffix(core.CalleeID(c2), ").GetBeaconBlockProof") || (c2.Call.IsInvoke() && c2.Call.Method.Name() == "GetBeaconBlockProof")) {
+					if rv, gf := core.ConcreteRecv(c2); rv != nil && gf != nil {
+						ptype = core.TypeName(rv.Type())
+						checkProofGetter(c, gf, "BeaconBlockProof")
+					}
 				}
 				return false
 			}, core.DeriveOpts{})
